@@ -22,9 +22,9 @@ PLANS = {
     },
     "C15": {
         "pass": "md",
-        "quick": [("md3", "md", 3, None), ("md1_5", "md1", 5, 12000)],
+        "quick": [("md3", "md", 3, None), ("md1_5", "md1", 5, 12000), ("mdp4", "mdp", 4, 4000)],
         "thorough": [("md3", "md", 3, None), ("md4", "md", 4, 120000), ("md1_5", "md1", 5, None),
-                     ("mdR7", "md", 7, 40000, 3000)],
+                     ("mdR7", "md", 7, 40000, 3000), ("mdp5", "mdp", 5, 120000)],
         "clauses": {"Strip", "ListCount", "ListOrder", "Exact", "InputModified", "Total"},
     },
 }
